@@ -45,6 +45,70 @@ CLAIMED = {
         "`inttype` stream (about 3*10^5 requests per quick run); string extraction from generated code in harness/src/inttype.rs.",
         "Lean 4 proof (omega after unfolding the cascades) + exhaustive correspondence over the boundary set",
     ),
+    "C10": (
+        "DESIGN.md 5 (C10), 4",
+        "Lean 4 theorems relating the L1 mirror of per/unaligned/mod.rs (Per/Prim.lean, on the bit-list abstraction justified by C11) "
+        "to an independent X.691 specification (X691/Prim.lean): for every primitive and ALL in-range arguments the writer produces "
+        "exactly the X.691 pattern, the reader returns the value and the untouched rest for arbitrary following bits, inadmissible "
+        "arguments are errors, readers never panic and consume a prefix; octet and bit strings for EVERY length through the 16K "
+        "fragment recursion (strong induction). Full strength after nine fix: commits, except the length determinant with ub >= 64K "
+        "(constrained/63-bit field instead of 11.9.4.2): _partial theorems with the explicit hypothesis not LenDeviates, the full "
+        "statements refuted on witnesses, and self-consistency proved in the deviating region; listed as known finding F-64k.",
+        "Trusted: Lean kernel, standard axioms; constants translator; hand mirror validated by the `per` stream (1.3*10^5 requests "
+        "quick, 5*10^6 thorough) and an independent Python X.691 oracle; X.691 transcribed from memory, cross-checked by the octet "
+        "string vectors pinned in /repo/tests.",
+        "Lean 4 proof (refinement of the mirror to an X.691 specification; strong induction over fragments) + correspondence stream",
+    ),
+    "C13": (
+        "DESIGN.md 5 (C13)",
+        "Lean 4 theorems about a char-level mirror of Tokenizer::parse: for every item list and every valid layout (whitespace, "
+        "CR/LF, line comments, block comments nested to any depth with arbitrary bodies) the tokenizer returns exactly the items, "
+        "each at the line/column where the renderer put its first character; two layouts give the same tokens. The block-comment "
+        "case is stated relative to the translator-extracted flag TOKENIZER_OPEN_FLUSHES: with the fix: commit f6eaa14 it is true and "
+        "the full-strength theorems (layout_invariance_of_open_flushes, layout_locations_of_open_flushes) apply. Also "
+        "tokenize_panics_iff for C14.",
+        "Trusted: Lean kernel, standard axioms (decide +kernel on concrete instances adds none); translator (separator sets, flush "
+        "flag); mirror validated by the `tok` stream (layouts and character soup) and an independent Python renderer/position oracle.",
+        "Lean 4 proof (induction over the item list with the tokenizer state as invariant) + correspondence stream",
+    ),
+    "C16": (
+        "DESIGN.md 5 (C16)",
+        "Lean 4 theorems about a mirror of assign_implicit_tags, sort_fields_canonically, TagResolver and the two-stage pipeline: "
+        "for every field list the emitted SET order is a permutation, pairwise ordered by (root-before-extension, class rank "
+        "U<A<C<P from the extracted derive(Ord) order, number), stable; automatic tags iff no component is tagged; SEQUENCE keeps "
+        "textual order; the resolver is total on acyclic reference graphs. Where the code deviates from X.680 8.6 (untagged CHOICE "
+        "with automatically tagged alternatives, leading marker, TAG constants of SET/SET OF/DEFAULT, cyclic references) the full "
+        "statements are kept, refuted on witnesses, _partial theorems carry the hypotheses; six listed known findings.",
+        "Trusted: Lean kernel, standard axioms; tag ranks/default tags from the translator; mirror validated by the `tags` stream "
+        "running the real converter and attribute macro (all permutations of <= 4 components quick, <= 5 thorough); Python X.680 oracle. "
+        "The wire order for values is covered by the UPER streams over the compiled SET types of the zoo.",
+        "Lean 4 proof (mergeSort permutation/sortedness/stability, fuel sufficiency) + correspondence stream",
+    ),
+    "C09": (
+        "DESIGN.md 5 (C09)",
+        "Partial by nature: rustc cannot be modelled. Proved in Lean: the name-mangling logic (both layers) — every mangled name is "
+        "non-empty and of identifier shape for every ASN.1 identifier (induction over the characters), exact characterisation of "
+        "when a mangled name is a Rust keyword (after fix 3ce6062: only variant/type `Self` and module names), collision "
+        "characterisation (names equal up to -/_ must collide). Explored, not proved: compilation of generated modules by one "
+        "`cargo check` per run over about 500 generated modules with an adversarial identifier pool; rustc rejections inside 13 "
+        "listed finding classes are KNOWN-FINDINGs, any other rejection is a violation.",
+        "Trusted: Lean kernel, standard axioms; KEYWORDS from the translator; Rust 2021 keyword list as a Lean constant (cross-checked "
+        "against syn); rustc itself, derive satisfiability and trait coherence are observed only.",
+        "Lean 4 proof of the naming decision logic + rustc as oracle (exploration) for compilation",
+    ),
+    "C08": (
+        "DESIGN.md 5 (C08)",
+        "Lean 4 theorem attr_roundtrip (partial): on the fragment FieldOk (booleans, null, integers unconstrained or with two bounds, "
+        "all string kinds, octet/bit strings with any size constraint, optional, default with bool/string/int/item literal, nested "
+        "sequence_of/set_of, tagged complex; any tag, any const list) parsing the printed attribute tokens gives back the field, by "
+        "structural induction over a token-level mirror of the generator's printer and the attribute macro's parser; each excluded "
+        "region has a decided counterexample and is a listed known finding. The definition header and the expanded descriptor "
+        "constants are not modelled; they are exercised on the real code by `attr reparse` and by the descriptor-consistency "
+        "comparison of the UPER streams (generated constants vs component lists).",
+        "Trusted: Lean kernel, standard axioms; proc_macro2/syn tokenisation is part of the trusted base, checked by the `attr` stream; "
+        "corpus = module texts of /repo/tests plus generated modules.",
+        "Lean 4 proof (print/parse round trip by structural induction) + correspondence and reparse streams",
+    ),
 }
 
 NOT_YET = "model and first theorem not built yet in this revision (work in progress; see DESIGN.md 8 for the order of work)"
